@@ -99,6 +99,9 @@ FIXED = [
      'a source whose window ends exactly at the image border raised ValueError (ndarray shape passed to astropy overlap_slices)'),
     ('C19', 'db78b58', 'ee-roundtrip|last-monotone-point',
      'CurveOfGrowth.calc_radius_at_ee dropped the last monotone point (radius[0:idx])'),
+    ('C20', '52eeda2', 'accuracy|[xy]0:nn',
+     "integrmode='nearest_neighbor' read pixel (floor(x), floor(y)) instead of the nearest pixel: every fitted centre was "
+     'biased by +0.5 px in x and y on noise-free elliptical galaxies'),
     ('C20', '6ef7e68', 'sma-range|below-minsma',
      'Ellipse.fit_image returned an isophote below minsma (sma0=10, step=0.1, minsma=9.5 -> first inward isophote at 9.09)'),
     ('C20', 'e16ee6a', 'model|pa-wraps-between-isophotes',
